@@ -159,6 +159,8 @@ pub fn values(ty: &Ty, cap: usize) -> Vec<Val> {
             let mut v: Vec<Val> = values(&l.wire, cap).into_iter().filter(|v| lib_accepts(&l.key, v)).collect();
             match l.key.as_str() {
                 "Canary1" => v.push(Val::U(0x47566843)),
+                // capacity boundary of ArrayString<8>: one below, exactly full (ASCII and multi-byte)
+                "ArrayString" => v.extend([Val::Str("1234567".into()), Val::Str("12345678".into()), Val::Str("aé✓12".into())]),
                 "Duration" => v.extend([Val::U(999_999_999), Val::U(1_000_000_000), Val::U(u64::MAX as u128 * 1_000_000_000 + 999_999_999)]),
                 "SystemTime" => v.extend([Val::U(1_700_000_000_123_456_789), Val::U((1u128 << 127) | 5_000_000_001), Val::U((1u128 << 127) | 1)]),
                 _ => {}
@@ -185,8 +187,15 @@ pub fn values(ty: &Ty, cap: usize) -> Vec<Val> {
                     out.push(Val::Seq(vec![e.clone()]));
                 }
             }
-            for n in [2usize, 3, 5] {
-                if n > maxn || (k.is_set() && n > ev.len()) {
+            let mut lens = vec![2usize, 3, 5];
+            if let SeqKind::ArrayVec(c) | SeqKind::SmallVec(c) = k {
+                // capacity boundary: exactly full, one below, (SmallVec: one above = spilled)
+                lens.extend([*c, c.saturating_sub(1), c + 1]);
+                lens.sort();
+                lens.dedup();
+            }
+            for n in lens {
+                if n == 0 || n > maxn || (k.is_set() && n > ev.len()) {
                     continue;
                 }
                 for start in 0..ev.len().min(3) {
